@@ -81,7 +81,8 @@ OutXonlyTweakCheck(i) ==
 OutSeckeyRaw(i) ==
   LET ps == ParseSecret(i.key) IN
   IF ~ps[1] THEN [ ret |-> 0, skok |-> 0, icb |-> 0 ]
-  ELSE LET r == CASE i.op = 1 -> KaSecTweakAdd(ps[2], i.t) [] i.op = 2 -> KaSecTweakMul(ps[2], i.t) [] i.op = 3 -> KaSecNegate(ps[2]) IN
+  ELSE LET t == IF "alias" \in DOMAIN i /\ i.alias = 1 THEN i.key ELSE i.t      \* alias = 1: the tweak argument is the key buffer itself
+           r == CASE i.op = 1 -> KaSecTweakAdd(ps[2], t) [] i.op = 2 -> KaSecTweakMul(ps[2], t) [] i.op = 3 -> KaSecNegate(ps[2]) IN
        IF r[1] THEN [ ret |-> 1, skok |-> 1, sk |-> KB(r[2]), icb |-> 0 ] ELSE [ ret |-> 0, skok |-> 0, icb |-> 0 ]
 
 Out(ev) == CASE ev.e = "SeckeyRaw"       -> OutSeckeyRaw(ev.in)
@@ -183,8 +184,10 @@ Cases ==
   \cup { << "sort", len, mode, bi, 0 >> : len \in SortLens, mode \in (IF Thorough THEN 1..4 ELSE 1..2), bi \in (IF Thorough THEN 1..2 ELSE {2}) }
   \cup { << "sort", len, mode, 1, 0 >> : len \in { 2, 41 }, mode \in 3..4 }
   \cup { << "sort", len, 1, 2, al >> : len \in { 5, 41, 64 }, al \in { 2, 3 } }
+  \cup { << "skalias", v, op >> : v \in { One, Two, Sub(N, One), HalfN, Add(HalfN, One), Mod(FromBytesBE(Rnd32(41)), N), Zero, N }, op \in {1, 2} }
   \cup { << "skraw", v, op, t >> : v \in { Zero, One, Sub(N, One), N, Add(N, One), KMax256 }, op \in {1, 2, 3}, t \in { One, FromNat(5), Sub(N, One) } }
   \cup { << "tchkwrap", x, v >> : x \in 1..8, v \in {0, 1} }
+  \cup { << "tchkinf", ki, claim, par >> : ki \in { 1, 4, 8 }, claim \in 0..3, par \in {0, 1} }
   \cup { << "tchk", ki, tk, mut >> : ki \in (IF Thorough THEN { 1, 4, 8, 9 } ELSE { 4, 8 }), tk \in (IF Thorough THEN { 1, 2, 3, 4, 5, 8, 13, 19 } ELSE { 1, 3, 4, 5, 8, 19 }), mut \in 0..6 }
 
 ExpandTchk(ki, tk, mut) ==
@@ -243,8 +246,15 @@ ExpandTchkWrap(x, v) ==
        IN  [ e |-> "XonlyTweakCheck", in |-> [ ix |-> X32(Pp), t |-> KB(tt), ox |-> ox, par |-> IF odd THEN 1 ELSE 0 ] ]
 
 Expand(c) ==
-  CASE c[1] = "skraw"  -> [ e |-> "SeckeyRaw", in |-> [ key |-> KB(c[2]), op |-> c[3], t |-> KB(c[4]) ] ]
+  CASE c[1] = "skalias" -> [ e |-> "SeckeyRaw", in |-> [ key |-> KB(c[2]), op |-> c[3], t |-> KB(c[2]), alias |-> 1 ] ]
+    [] c[1] = "skraw"  -> [ e |-> "SeckeyRaw", in |-> [ key |-> KB(c[2]), op |-> c[3], t |-> KB(c[4]) ] ]
     [] c[1] = "tchkwrap" -> ExpandTchkWrap(c[2], c[3])
+    [] c[1] = "tchkinf" ->   \* the tweak cancels the (even) internal key: the tweaked point is infinity and NO (x, parity) claim may be accepted,
+                             \* in particular not the 32 zero bytes that an unchecked conversion of infinity would read as
+         LET Q0 == PMulG(KeyPool[c[2]])  Q == KaEven(Q0)
+             d == IF KaParity(Q0) = 1 THEN SNeg(KeyPool[c[2]]) ELSE KeyPool[c[2]]
+             ox == CASE c[3] = 0 -> KB(Zero) [] c[3] = 1 -> X32(Q) [] c[3] = 2 -> KB(One) [] c[3] = 3 -> X32(PMulG(Two))
+         IN  [ e |-> "XonlyTweakCheck", in |-> [ ix |-> X32(Q), t |-> KB(SNeg(d)), ox |-> ox, par |-> c[4] ] ]
     [] c[1] = "step"   -> KC(KeyPool[c[2]], << << c[3], c[4] >> >>)
     [] c[1] = "rchain" -> KC(KeyPool[(c[2] % Len(KeyPool)) + 1], RndDescr(c[2]))
     [] c[1] = "create" -> IF c[3] = 1 THEN [ e |-> "PubkeyCreate", in |-> [ key |-> KB(c[2]) ] ]
